@@ -392,7 +392,21 @@ def run(ctx: Context) -> None:
                     out.append(('?', '?', norm_text(r)))
             return rets[0], out
 
-        for qual, xn, yn in ((f"{GRID}.CFGrid.bounds", 'longitude_bounds', 'latitude_bounds'), (f"{UGRID}.UGrid.bounds", 'node_x', 'node_y')):
+        # UGRID: the bounding box of the polygons that exist (all nodes would count nodes no face uses)
+        ub = ctx.func(f"{UGRID}.UGrid.bounds")
+        uflow = ctx.flow(ub)
+        from ..pattern import Matcher
+        mu = Matcher(ctx, ub)
+        tb = mu.stmt('$a, $b, $c, $d = shapely.total_bounds(self.polygons[self.mask])')
+        ok = tb is not None and bool(ub.returns()) and all(mu.match('return ($a, $b, $c, $d)', r, commit=False) for r in ub.returns())
+        if not ok:
+            direct = [r for r in ub.returns() if isinstance(uflow.resolve(r.value), ast.Call) and callee(ctx, ub, uflow.resolve(r.value)) in ('builtins.tuple', 'tuple')]
+            ok = any(mu.match('tuple(shapely.total_bounds(self.polygons[self.mask]))', uflow.resolve(r.value), commit=False) for r in ub.returns())
+        ctx.check('R06.7', bool(ok), "the mesh bounds are shapely.total_bounds of polygons[mask], slots in (min x, min y, max x, max y) order: only faces with a polygon count", ub,
+                  tb or ub.node, construct=f"UGrid.bounds = {norm_text(ub.returns()[0].value) if ub.returns() else '?'}")
+        for _k in range(3):
+            ctx.check('R06.7', bool(ok), "(slot of the mesh bounds, see above)", ub, tb or ub.node, construct=f"UGrid.bounds slot {_k + 1}")
+        for qual, xn, yn in ((f"{GRID}.CFGrid.bounds", 'longitude_bounds', 'latitude_bounds'),):
             fi = ctx.func(qual)
             res = extent_slots(fi, xn, yn)
             ctx.need('R06.7', res is not None, f"{fi.short} returns a 4-tuple", fi)
@@ -426,6 +440,7 @@ _U = 'src/emsarray/conventions/ugrid.py'
 _B = 'src/emsarray/conventions/_base.py'
 _S = 'src/emsarray/conventions/shoc.py'
 VARIANTS = [
+    V('C06', 'mesh-bounds-over-all-nodes', 'src/emsarray/conventions/ugrid.py', "        min_x, min_y, max_x, max_y = shapely.total_bounds(self.polygons[self.mask])\n", "        topology = self.topology\n        min_x, max_x = numpy.nanmin(topology.node_x), numpy.nanmax(topology.node_x)\n        min_y, max_y = numpy.nanmin(topology.node_y), numpy.nanmax(topology.node_y)\n", 'R06.7'),
     V('C06', 'cf1d-bowtie', _G, "            lon_bounds[:, 0],\n            lon_bounds[:, 1],\n            lon_bounds[:, 1],\n            lon_bounds[:, 0],", "            lon_bounds[:, 0],\n            lon_bounds[:, 1],\n            lon_bounds[:, 0],\n            lon_bounds[:, 1],", 'R06.1'),
     V('C06', 'arakawa-bowtie', _A, "            grid[:-1, +1:],\n            grid[+1:, +1:],\n            grid[+1:, :-1],", "            grid[:-1, +1:],\n            grid[+1:, :-1],\n            grid[+1:, +1:],", 'R06.1'),
     V('C06', 'cf2d-synth-bowtie', _G, "            grid[:-1, :-1], grid[:-1, 1:], grid[1:, 1:], grid[1:, :-1],", "            grid[:-1, :-1], grid[:-1, 1:], grid[1:, :-1], grid[1:, 1:],", 'R06.1'),
@@ -444,7 +459,7 @@ VARIANTS = [
     V('C06', 'filter-bypassed', _B, "        polygons = self._make_polygons()\n\n        not_none", "        polygons = self._make_polygons()\n        if polygons.size > 100000:\n            return polygons\n\n        not_none", 'R06.6'),
     V('C06', 'invalid-kept', _B, "            polygons[invalid_polygon_indices] = None\n", "", 'R06.6'),
     V('C06', 'extent-slots-permuted', _G, "        return (min_x, min_y, max_x, max_y)", "        return (min_x, max_x, min_y, max_y)", 'R06.7'),
-    V('C06', 'ugrid-extent-min-for-max', _U, "        max_y = numpy.nanmax(topology.node_y)", "        max_y = numpy.nanmax(topology.node_x)", 'R06.7'),
+    V('C06', 'ugrid-extent-slots-swapped', _U, "        min_x, min_y, max_x, max_y = shapely.total_bounds(self.polygons[self.mask])", "        min_x, max_x, min_y, max_y = shapely.total_bounds(self.polygons[self.mask])", 'R06.7'),
     # benign
     V('C06', 'benign-cf1d-other-orientation', _G, "            lon_bounds[:, 0],\n            lon_bounds[:, 1],\n            lon_bounds[:, 1],\n            lon_bounds[:, 0],\n        ], axis=-1)", "            lon_bounds[:, 0],\n            lon_bounds[:, 0],\n            lon_bounds[:, 1],\n            lon_bounds[:, 1],\n        ], axis=-1)", None, note='together with the latitude picks below this is still a cycle? no - handled by the next variant'),
 ]
